@@ -7,7 +7,11 @@
    q1/q2 are the two repaired quirks (false = repaired), q3 the open BaseException finding
    (true = the code as it is).  Events: a classified message arrives / the peer goes away /
    the peer is silent beyond COMMTIMEOUT; a connection may have been denied by a full thread pool.
-   [fresh g sty pre c]: connection c is new after the history pre and the daemon is serving. *)
+   The application's register / unregister calls (by id, by object, collection of a weak registration) are
+   events of the history too; "object known" is evaluated against the registry of that moment.
+   [fresh g sty pre c]: connection c is new after the history pre and the daemon is serving.
+   [reg_after g sty pre]: the registry after pre; by C08_registry_is_applications it is exactly what the
+   application's own calls in pre say (connection events never change it). *)
 From Coq Require Import List NArith Arith Bool.
 Import ListNotations.
 From V Require Import Model.HandshakeGate Proofs.HandshakeGateHs Proofs.HandshakeGate Gen.GenHandshake Gen.GenProtocol Harness.H08.
@@ -21,9 +25,9 @@ Proof. intros [] [] []; vm_compute; reflexivity. Qed.
 Print Assumptions C08_gen_structure.
 
 (* In every trace of every event list (any number of connections, any interleaving, messages, peers going
-   away, silences, denied connections), on both server types and for every quirk variant: an execution on
-   behalf of connection c — on an application object or on the daemon's built-in object — is preceded by the
-   CONNECTOK answer to c. *)
+   away, silences, denied connections, registrations and unregistrations in between), on both server types and
+   for every quirk variant: an execution on behalf of connection c — on an application object or on the daemon's
+   built-in object — is preceded by the CONNECTOK answer to c. *)
 Theorem C08_no_exec_before_handshake : forall q1 q2 q3 sty evs t1 c t tok t2,
   trace (gen_cfg q1 q2 q3) sty evs = t1 ++ Exec c t tok :: t2 ->
   exists s i, In (Reply c RConnectOk s i) t1.
@@ -31,74 +35,95 @@ Proof. intros q1 q2 q3 sty. exact (no_exec_before_handshake (gen_cfg q1 q2 q3) s
 Print Assumptions C08_no_exec_before_handshake.
 
 (* ... and CONNECTOK is only ever the answer to the first event of a fresh connection that was not denied,
-   when that event is a well-formed CONNECT with a known serializer for a registered object which the
-   validator accepted. *)
+   when that event is a well-formed CONNECT with a known serializer which the validator accepted, for an
+   object id that is registered at that moment. *)
 Theorem C08_connectok_only_for_accepted_connect : forall q1 q2 q3 sty pre e c s i,
-  In (Reply c RConnectOk s i) (outs_of (gen_cfg q1 q2 q3) sty pre e) ->
-  e_conn e = c /\ fresh (gen_cfg q1 q2 q3) sty pre c /\
-  is_accepted_connect (gen_cfg q1 q2 q3) sty e = true.
+  let g := gen_cfg q1 q2 q3 in
+  In (Reply c RConnectOk s i) (outs_of g sty pre e) ->
+  exists ce, e = EvConn ce /\ e_conn ce = c /\ fresh g sty pre c /\
+    is_accepted_connect g sty (reg_after g sty pre) ce = true.
 Proof. intros q1 q2 q3 sty. exact (connectok_only_for_accepted_connect (gen_cfg q1 q2 q3) sty (C08_gen_structure q1 q2 q3)). Qed.
 Print Assumptions C08_connectok_only_for_accepted_connect.
 
+(* The registry the machine consults is exactly what the application's own calls made it ... *)
+Theorem C08_registry_is_applications : forall q1 q2 q3 sty pre,
+  reg_after (gen_cfg q1 q2 q3) sty pre = reg_of_history reg_init pre.
+Proof. intros q1 q2 q3 sty. exact (reg_after_spec (gen_cfg q1 q2 q3) sty). Qed.
+Print Assumptions C08_registry_is_applications.
+
+(* ... so an accepted CONNECT names an object id that is the daemon's own, or that the application registered
+   earlier and has not removed since — neither by id, nor by object, nor by the collection of a weak registration. *)
+Theorem C08_accepted_connect_object_registered : forall q1 q2 q3 sty pre ce,
+  is_accepted_connect (gen_cfg q1 q2 q3) sty (reg_after (gen_cfg q1 q2 q3) sty pre) ce = true ->
+  exists m n, e_in ce = InMsg m /\ m_hs m = HsFull (ObjId n) /\ reg_of_history reg_init pre n = true /\
+    (n = daemon_oid \/
+     exists p1 p2, pre = p1 ++ EvApp (Register n) :: p2 /\ forall a, In (EvApp a) p2 -> removes a n = false).
+Proof. intros q1 q2 q3 sty. exact (accepted_connect_object_registered (gen_cfg q1 q2 q3) sty). Qed.
+Print Assumptions C08_accepted_connect_object_registered.
+
 (* Event form: whatever is executed is executed for an INVOKE message of the connection itself,
-   and that connection's first event was an accepted CONNECT (answered CONNECTOK). *)
+   and that connection's first event was a CONNECT accepted against the registry of that moment (answered CONNECTOK). *)
 Theorem C08_exec_needs_accepted_connect : forall q1 q2 q3 sty pre e c t tok,
-  In (Exec c t tok) (outs_of (gen_cfg q1 q2 q3) sty pre e) ->
-  e_conn e = c /\ (exists m, e_in e = InMsg m /\ m_type m = t_invoke) /\
-  exists p1 e0 p2, pre = p1 ++ e0 :: p2 /\ e_conn e0 = c /\ fresh (gen_cfg q1 q2 q3) sty p1 c /\
-    is_accepted_connect (gen_cfg q1 q2 q3) sty e0 = true /\
-    exists m0, e_in e0 = InMsg m0 /\
-      outs_of (gen_cfg q1 q2 q3) sty p1 e0 = [Reply c RConnectOk (m_seq m0) (m_ser m0)].
+  let g := gen_cfg q1 q2 q3 in
+  In (Exec c t tok) (outs_of g sty pre e) ->
+  (exists ce, e = EvConn ce /\ e_conn ce = c /\ exists m, e_in ce = InMsg m /\ m_type m = t_invoke) /\
+  exists p1 ce0 p2, pre = p1 ++ EvConn ce0 :: p2 /\ e_conn ce0 = c /\ fresh g sty p1 c /\
+    is_accepted_connect g sty (reg_after g sty p1) ce0 = true /\
+    exists m0, e_in ce0 = InMsg m0 /\
+      outs_of g sty p1 (EvConn ce0) = [Reply c RConnectOk (m_seq m0) (m_ser m0)].
 Proof. intros q1 q2 q3 sty. exact (exec_needs_accepted_connect (gen_cfg q1 q2 q3) sty (C08_gen_structure q1 q2 q3)). Qed.
 Print Assumptions C08_exec_needs_accepted_connect.
 
 (* A failing first event of a fresh connection (anything that is not an accepted CONNECT: another type,
-   malformed, unknown serializer, bad payload, validator raises, unknown object, peer gone, silence, denied
-   by the full pool): at most one reply, and it is a CONNECTFAIL; then the socket is closed — except when the
-   validator raises a BaseException-only class (open finding): then no reply at all comes out (and the socket is
-   closed only in one sub-case, by a destructor).  In every case no later event of that connection yields any
-   reply or execution, whatever is pipelined behind. *)
-Theorem C08_failed_handshake_closes : forall q1 q2 q3 sty pre e c,
+   malformed, unknown serializer, bad payload, validator raises, object id not registered at that moment — never
+   registered, or unregistered in whatever way —, peer gone, silence, denied by the full pool): at most one reply,
+   and it is a CONNECTFAIL; then the socket is closed — except when the validator raises a BaseException-only
+   class (open finding): then no reply at all comes out (and the socket is closed only in one sub-case, by a
+   destructor).  In every case no later event of that connection yields any reply or execution, whatever is
+   pipelined behind. *)
+Theorem C08_failed_handshake_closes : forall q1 q2 q3 sty pre ce c,
   let g := gen_cfg q1 q2 q3 in
-  e_conn e = c -> fresh g sty pre c -> is_accepted_connect g sty e = false ->
-  ((validator_aborts g sty e = true /\ (outs_of g sty pre e = [] \/ outs_of g sty pre e = [SockClosed c])) \/
-   (validator_aborts g sty e = false /\
-    exists rs, outs_of g sty pre e = rs ++ [SockClosed c] /\
+  e_conn ce = c -> fresh g sty pre c -> is_accepted_connect g sty (reg_after g sty pre) ce = false ->
+  ((validator_aborts g sty ce = true /\
+    (outs_of g sty pre (EvConn ce) = [] \/ outs_of g sty pre (EvConn ce) = [SockClosed c])) \/
+   (validator_aborts g sty ce = false /\
+    exists rs, outs_of g sty pre (EvConn ce) = rs ++ [SockClosed c] /\
                (rs = [] \/ exists r s i, rs = [Reply c (RConnectFail r) s i]))) /\
-  (forall mid e', e_conn e' = c -> outs_of g sty (pre ++ e :: mid) e' = []).
+  (forall mid ce', e_conn ce' = c -> outs_of g sty (pre ++ EvConn ce :: mid) (EvConn ce') = []).
 Proof. intros q1 q2 q3 sty. exact (failed_handshake_closes (gen_cfg q1 q2 q3) sty (C08_gen_structure q1 q2 q3)). Qed.
 Print Assumptions C08_failed_handshake_closes.
 
 (* The failure answer carries the reason: (a) first message well-framed but not a CONNECT, (b) the validator
-   raises an Exception, (c) unknown object, (d) no free worker in the thread pool, (e) silence beyond COMMTIMEOUT. *)
-Theorem C08_failure_reason_carried : forall q1 q2 q3 sty pre e c,
+   raises an Exception, (c) the object id is not registered according to the application's own calls so far,
+   (d) no free worker in the thread pool, (e) silence beyond COMMTIMEOUT. *)
+Theorem C08_failure_reason_carried : forall q1 q2 q3 sty pre ce c,
   let g := gen_cfg q1 q2 q3 in
-  e_conn e = c -> fresh g sty pre c ->
-  (forall m, e_in e = InMsg m -> m_wf m <> WfBadHeader -> m_type m <> t_connect ->
-     outs_of g sty pre e = [Reply c (RConnectFail RsnOther) 0%N marshal_id; SockClosed c]) /\
-  (forall m o cc, e_in e = InMsg m -> denied_applies sty e = false ->
+  e_conn ce = c -> fresh g sty pre c ->
+  (forall m, e_in ce = InMsg m -> m_wf m <> WfBadHeader -> m_type m <> t_connect ->
+     outs_of g sty pre (EvConn ce) = [Reply c (RConnectFail RsnOther) 0%N marshal_id; SockClosed c]) /\
+  (forall m o cc, e_in ce = InMsg m -> denied_applies sty ce = false ->
      m_wf m = WfOk -> m_type m = t_connect -> m_ser_known m = true ->
      m_hs m = HsFull o -> m_val m = VRaise cc -> cc && q2 = false ->
-     outs_of g sty pre e = [Reply c (RConnectFail RsnValidator) (m_seq m) (m_ser m); SockClosed c]) /\
-  (forall m s, e_in e = InMsg m -> denied_applies sty e = false ->
+     outs_of g sty pre (EvConn ce) = [Reply c (RConnectFail RsnValidator) (m_seq m) (m_ser m); SockClosed c]) /\
+  (forall m n s, e_in ce = InMsg m -> denied_applies sty ce = false ->
      m_wf m = WfOk -> m_type m = t_connect -> m_ser_known m = true ->
-     m_hs m = HsFull ObjUnknown -> m_val m = VAccept s ->
-     outs_of g sty pre e = [Reply c (RConnectFail RsnUnknownObject) (m_seq m) (m_ser m); SockClosed c]) /\
-  (forall m, e_in e = InMsg m -> denied_applies sty e = true -> m_wf m = WfOk -> m_type m = t_connect ->
-     outs_of g sty pre e = [Reply c (RConnectFail RsnDenied) (m_seq m) marshal_id; SockClosed c]) /\
-  (e_in e = InSilence ->
-     outs_of g sty pre e = [Reply c (RConnectFail RsnOther) 0%N marshal_id; SockClosed c]).
+     m_hs m = HsFull (ObjId n) -> reg_of_history reg_init pre n = false -> m_val m = VAccept s ->
+     outs_of g sty pre (EvConn ce) = [Reply c (RConnectFail RsnUnknownObject) (m_seq m) (m_ser m); SockClosed c]) /\
+  (forall m, e_in ce = InMsg m -> denied_applies sty ce = true -> m_wf m = WfOk -> m_type m = t_connect ->
+     outs_of g sty pre (EvConn ce) = [Reply c (RConnectFail RsnDenied) (m_seq m) marshal_id; SockClosed c]) /\
+  (e_in ce = InSilence ->
+     outs_of g sty pre (EvConn ce) = [Reply c (RConnectFail RsnOther) 0%N marshal_id; SockClosed c]).
 Proof. intros q1 q2 q3 sty. exact (failure_reason_carried (gen_cfg q1 q2 q3) sty (C08_gen_structure q1 q2 q3)). Qed.
 Print Assumptions C08_failure_reason_carried.
 
 (* The code as it is (two quirks repaired): every failing first event of a fresh connection is answered with
    exactly one CONNECTFAIL before the close — with the two honest exceptions: a peer that has already gone
-   away cannot be answered, and the validator raising a BaseException-only class (next theorem). *)
-Theorem C08_failed_handshake_always_answered : forall q3 sty pre e c,
+   away cannot be answered, and the validator raising a BaseException-only class (see below). *)
+Theorem C08_failed_handshake_always_answered : forall q3 sty pre ce c,
   let g := gen_cfg false false q3 in
-  e_conn e = c -> fresh g sty pre c -> is_accepted_connect g sty e = false ->
-  peer_gone e = false -> validator_aborts g sty e = false ->
-  exists r s i, outs_of g sty pre e = [Reply c (RConnectFail r) s i; SockClosed c].
+  e_conn ce = c -> fresh g sty pre c -> is_accepted_connect g sty (reg_after g sty pre) ce = false ->
+  peer_gone ce = false -> validator_aborts g sty ce = false ->
+  exists r s i, outs_of g sty pre (EvConn ce) = [Reply c (RConnectFail r) s i; SockClosed c].
 Proof.
   intros q3 sty.
   exact (failed_handshake_always_answered (gen_cfg false false q3) sty (C08_gen_structure false false q3) eq_refl eq_refl).
@@ -106,9 +131,9 @@ Qed.
 Print Assumptions C08_failed_handshake_always_answered.
 
 (* A peer that goes away before completing its first message is closed, nothing else. *)
-Theorem C08_peer_gone_first : forall q1 q2 q3 sty pre e c,
-  e_conn e = c -> fresh (gen_cfg q1 q2 q3) sty pre c -> e_in e = InPeerGone ->
-  outs_of (gen_cfg q1 q2 q3) sty pre e = [SockClosed c].
+Theorem C08_peer_gone_first : forall q1 q2 q3 sty pre ce c,
+  e_conn ce = c -> fresh (gen_cfg q1 q2 q3) sty pre c -> e_in ce = InPeerGone ->
+  outs_of (gen_cfg q1 q2 q3) sty pre (EvConn ce) = [SockClosed c].
 Proof. intros q1 q2 q3 sty. exact (peer_gone_first (gen_cfg q1 q2 q3) sty (C08_gen_structure q1 q2 q3)). Qed.
 Print Assumptions C08_peer_gone_first.
 
@@ -118,13 +143,13 @@ Print Assumptions C08_peer_gone_first.
    not: no connect-failure is sent (the output contains no Reply), and on the thread server the socket is not
    closed either (the output is empty); on the multiplex server it is closed only when the class is a
    KeyboardInterrupt (loop() catches it and the dropped connection object's destructor closes the socket). *)
-Theorem C08_validator_abort_outcome : forall q1 q2 q3 sty pre e c,
+Theorem C08_validator_abort_outcome : forall q1 q2 q3 sty pre ce c,
   let g := gen_cfg q1 q2 q3 in
-  e_conn e = c -> fresh g sty pre c -> validator_aborts g sty e = true ->
-  (outs_of g sty pre e = [] \/ outs_of g sty pre e = [SockClosed c]) /\
-  (sty = Thread -> outs_of g sty pre e = []) /\
-  (forall mid e', e_conn e' = c -> outs_of g sty (pre ++ e :: mid) e' = []) /\
-  (sty = Multiplex -> forall mid e', outs_of g sty (pre ++ e :: mid) e' = []).
+  e_conn ce = c -> fresh g sty pre c -> validator_aborts g sty ce = true ->
+  (outs_of g sty pre (EvConn ce) = [] \/ outs_of g sty pre (EvConn ce) = [SockClosed c]) /\
+  (sty = Thread -> outs_of g sty pre (EvConn ce) = []) /\
+  (forall mid ce', e_conn ce' = c -> outs_of g sty (pre ++ EvConn ce :: mid) (EvConn ce') = []) /\
+  (sty = Multiplex -> forall mid e', outs_of g sty (pre ++ EvConn ce :: mid) e' = []).
 Proof. intros q1 q2 q3 sty. exact (validator_abort_outcome (gen_cfg q1 q2 q3) sty (C08_gen_structure q1 q2 q3)). Qed.
 Print Assumptions C08_validator_abort_outcome.
 
@@ -132,33 +157,34 @@ Print Assumptions C08_validator_abort_outcome.
    validator ended the request loop; nothing is served (hence nothing executed) for it. *)
 Theorem C08_loop_killed_nothing_served : forall q1 q2 q3 sty pre c,
   let g := gen_cfg q1 q2 q3 in
-  (forall x, In x pre -> e_conn x <> c) -> ~ fresh g sty pre c ->
-  sty = Multiplex /\ (exists x, In x pre /\ validator_aborts g sty x = true) /\
-  forall mid e', e_conn e' = c -> outs_of g sty (pre ++ mid) e' = [].
+  (forall x, In x pre -> ev_conn x <> Some c) -> ~ fresh g sty pre c ->
+  sty = Multiplex /\ (exists ce, In (EvConn ce) pre /\ validator_aborts g sty ce = true) /\
+  forall mid ce', e_conn ce' = c -> outs_of g sty (pre ++ mid) (EvConn ce') = [].
 Proof. intros q1 q2 q3 sty. exact (loop_killed_nothing_served (gen_cfg q1 q2 q3) sty (C08_gen_structure q1 q2 q3)). Qed.
 Print Assumptions C08_loop_killed_nothing_served.
 
 (* The defective variants: a failing first event that does not get "one CONNECTFAIL, then closed". *)
-Definition wit_msg (known : bool) (v : vb) : msg :=
+Definition wit_msg (known : bool) (o : N) (v : vb) : msg :=
   {| m_type := t_connect; m_wf := WfOk; m_ser := (if known then 1 else 99)%N; m_ser_known := known; m_seq := 7%N;
-     m_oneway := false; m_hs := HsFull ObjKnown; m_call := CpFail DfKeep; m_val := v |}.
-Definition ev (c : nat) (m : msg) : event := {| e_conn := c; e_in := InMsg m; e_denied := false |}.
+     m_oneway := false; m_hs := HsFull (ObjId o); m_call := CpFail DfKeep; m_val := v |}.
+Definition ev (c : nat) (m : msg) : event := EvConn {| e_conn := c; e_in := InMsg m; e_denied := false |}.
+Definition cev (c : nat) (m : msg) : cevent := {| e_conn := c; e_in := InMsg m; e_denied := false |}.
 
 Theorem C08_silent_unknown_serializer_refuted :
-  exists sty e, is_accepted_connect (gen_cfg true false false) sty e = false /\
-    ~ exists r s i, outs_of (gen_cfg true false false) sty [] e = [Reply (e_conn e) (RConnectFail r) s i; SockClosed (e_conn e)].
+  exists sty e, is_accepted_connect (gen_cfg true false false) sty reg_init e = false /\
+    ~ exists r s i, outs_of (gen_cfg true false false) sty [] (EvConn e) = [Reply (e_conn e) (RConnectFail r) s i; SockClosed (e_conn e)].
 Proof.
-  exists Thread, (ev 0 (wit_msg false (VAccept true))). split.
+  exists Thread, (cev 0 (wit_msg false 0 (VAccept true))). split.
   - vm_compute. reflexivity.
   - intros (r & s & i & H). vm_compute in H. discriminate H.
 Qed.
 Print Assumptions C08_silent_unknown_serializer_refuted.
 
 Theorem C08_silent_validator_connclosed_refuted :
-  exists sty e, is_accepted_connect (gen_cfg false true false) sty e = false /\
-    ~ exists r s i, outs_of (gen_cfg false true false) sty [] e = [Reply (e_conn e) (RConnectFail r) s i; SockClosed (e_conn e)].
+  exists sty e, is_accepted_connect (gen_cfg false true false) sty reg_init e = false /\
+    ~ exists r s i, outs_of (gen_cfg false true false) sty [] (EvConn e) = [Reply (e_conn e) (RConnectFail r) s i; SockClosed (e_conn e)].
 Proof.
-  exists Multiplex, (ev 0 (wit_msg true (VRaise true))). split.
+  exists Multiplex, (cev 0 (wit_msg true 0 (VRaise true))). split.
   - vm_compute. reflexivity.
   - intros (r & s & i & H). vm_compute in H. discriminate H.
 Qed.
@@ -166,10 +192,10 @@ Print Assumptions C08_silent_validator_connclosed_refuted.
 
 (* open finding: the code as it is (q3 = true), validator raising a BaseException-only class *)
 Theorem C08_validator_baseexception_unanswered_refuted :
-  forall sty, exists e, is_accepted_connect (gen_cfg false false true) sty e = false /\
-    ~ exists r s i, outs_of (gen_cfg false false true) sty [] e = [Reply (e_conn e) (RConnectFail r) s i; SockClosed (e_conn e)].
+  forall sty, exists e, is_accepted_connect (gen_cfg false false true) sty reg_init e = false /\
+    ~ exists r s i, outs_of (gen_cfg false false true) sty [] (EvConn e) = [Reply (e_conn e) (RConnectFail r) s i; SockClosed (e_conn e)].
 Proof.
-  intros sty. exists (ev 0 (wit_msg true (VAbort false))). split.
+  intros sty. exists (cev 0 (wit_msg true 0 (VAbort false))). split.
   - destruct sty; vm_compute; reflexivity.
   - intros (r & s & i & H). destruct sty; vm_compute in H; discriminate H.
 Qed.
@@ -177,44 +203,59 @@ Print Assumptions C08_validator_baseexception_unanswered_refuted.
 
 (* non-vacuity: an accepted handshake followed by an executed call (application object and daemon object);
    a refused handshake with an INVOKE pipelined behind it that is not executed; two interleaved connections;
-   a denied connection; a silent one; a peer that goes away; the BaseException outcome on both server types *)
-Definition ex_call (t : target) (tok : N) : msg :=
+   a denied connection; a silent one; a peer that goes away; the BaseException outcome on both server types;
+   the registry: connect to an id before it is registered, after, and after it was unregistered again while an
+   older connection to it is still open *)
+Definition ex_call (o : N) (t : target) (tok : N) : msg :=
   {| m_type := t_invoke; m_wf := WfOk; m_ser := 1%N; m_ser_known := true; m_seq := 3%N; m_oneway := false;
-     m_hs := HsNoHandshakeKey; m_call := CpCall true t MReturns tok; m_val := VAccept true |}.
+     m_hs := HsNoHandshakeKey; m_call := CpCall (Some o) t MReturns tok; m_val := VAccept true |}.
+Definition reg1 : event := EvApp (Register 1%N).
 Example C08_nonvacuous_exec :
   trace (gen_cfg false false true) Thread
-    [ ev 0 (wit_msg true (VAccept true)); ev 0 (ex_call TUser 42%N); ev 0 (ex_call TDaemon 43%N) ]
+    [ reg1; ev 0 (wit_msg true 1 (VAccept true)); ev 0 (ex_call 1 TUser 42%N); ev 0 (ex_call 0 TDaemon 43%N) ]
   = [Reply 0 RConnectOk 7%N 1%N; Exec 0 TUser 42%N; Reply 0 RResult 3%N 1%N; Exec 0 TDaemon 43%N; Reply 0 RResult 3%N 1%N].
 Proof. vm_compute. reflexivity. Qed.
 Example C08_nonvacuous_refused :
   trace (gen_cfg false false true) Multiplex
-    [ ev 1 (wit_msg true (VRaise false)); ev 0 (wit_msg true (VAccept true));
-      ev 1 (ex_call TUser 5%N); ev 0 (ex_call TUser 6%N) ]
+    [ reg1; ev 1 (wit_msg true 1 (VRaise false)); ev 0 (wit_msg true 1 (VAccept true));
+      ev 1 (ex_call 1 TUser 5%N); ev 0 (ex_call 1 TUser 6%N) ]
   = [Reply 1 (RConnectFail RsnValidator) 7%N 1%N; SockClosed 1; Reply 0 RConnectOk 7%N 1%N;
      Exec 0 TUser 6%N; Reply 0 RResult 3%N 1%N].
 Proof. vm_compute. reflexivity. Qed.
 Example C08_nonvacuous_invoke_first :
-  trace (gen_cfg false false true) Thread [ ev 0 (ex_call TDaemon 9%N); ev 0 (ex_call TUser 10%N) ]
+  trace (gen_cfg false false true) Thread [ reg1; ev 0 (ex_call 0 TDaemon 9%N); ev 0 (ex_call 1 TUser 10%N) ]
   = [Reply 0 (RConnectFail RsnOther) 0%N marshal_id; SockClosed 0].
 Proof. vm_compute. reflexivity. Qed.
 Example C08_nonvacuous_transport :
   trace (gen_cfg false false true) Thread
-    [ {| e_conn := 0; e_in := InMsg (wit_msg true (VAccept true)); e_denied := true |}; ev 0 (ex_call TUser 1%N);
-      {| e_conn := 1; e_in := InSilence; e_denied := false |}; ev 1 (ex_call TUser 2%N);
-      {| e_conn := 2; e_in := InPeerGone; e_denied := false |};
-      ev 3 (wit_msg true (VAccept true)); {| e_conn := 3; e_in := InSilence; e_denied := false |}; ev 3 (ex_call TUser 3%N) ]
+    [ reg1; EvConn {| e_conn := 0; e_in := InMsg (wit_msg true 1 (VAccept true)); e_denied := true |}; ev 0 (ex_call 1 TUser 1%N);
+      EvConn {| e_conn := 1; e_in := InSilence; e_denied := false |}; ev 1 (ex_call 1 TUser 2%N);
+      EvConn {| e_conn := 2; e_in := InPeerGone; e_denied := false |};
+      ev 3 (wit_msg true 1 (VAccept true)); EvConn {| e_conn := 3; e_in := InSilence; e_denied := false |}; ev 3 (ex_call 1 TUser 3%N) ]
   = [Reply 0 (RConnectFail RsnDenied) 7%N marshal_id; SockClosed 0;
      Reply 1 (RConnectFail RsnOther) 0%N marshal_id; SockClosed 1; SockClosed 2;
      Reply 3 RConnectOk 7%N 1%N; SockClosed 3].
 Proof. vm_compute. reflexivity. Qed.
 Example C08_nonvacuous_abort :
   trace (gen_cfg false false true) Thread
-    [ ev 0 (wit_msg true (VAccept true)); ev 1 (wit_msg true (VAbort true)); ev 1 (ex_call TUser 1%N); ev 0 (ex_call TUser 2%N) ]
+    [ reg1; ev 0 (wit_msg true 1 (VAccept true)); ev 1 (wit_msg true 1 (VAbort true)); ev 1 (ex_call 1 TUser 1%N); ev 0 (ex_call 1 TUser 2%N) ]
   = [Reply 0 RConnectOk 7%N 1%N; Exec 0 TUser 2%N; Reply 0 RResult 3%N 1%N] /\
   trace (gen_cfg false false true) Multiplex
-    [ ev 0 (wit_msg true (VAccept true)); ev 1 (wit_msg true (VAbort false)); ev 1 (ex_call TUser 1%N); ev 0 (ex_call TUser 2%N) ]
+    [ reg1; ev 0 (wit_msg true 1 (VAccept true)); ev 1 (wit_msg true 1 (VAbort false)); ev 1 (ex_call 1 TUser 1%N); ev 0 (ex_call 1 TUser 2%N) ]
   = [Reply 0 RConnectOk 7%N 1%N] /\
   trace (gen_cfg false false true) Multiplex
-    [ ev 0 (wit_msg true (VAccept true)); ev 1 (wit_msg true (VAbort true)); ev 1 (ex_call TUser 1%N); ev 0 (ex_call TUser 2%N) ]
+    [ reg1; ev 0 (wit_msg true 1 (VAccept true)); ev 1 (wit_msg true 1 (VAbort true)); ev 1 (ex_call 1 TUser 1%N); ev 0 (ex_call 1 TUser 2%N) ]
   = [Reply 0 RConnectOk 7%N 1%N; SockClosed 1].
 Proof. repeat split; vm_compute; reflexivity. Qed.
+Example C08_nonvacuous_registry :
+  trace (gen_cfg false false true) Multiplex
+    [ reg1; ev 0 (wit_msg true 2 (VAccept true));                       (* id 2 not registered yet: refused *)
+      EvApp (Register 2%N); ev 1 (wit_msg true 2 (VAccept true)); ev 1 (ex_call 2 TUser 5%N);
+      EvApp (UnregisterById 2%N);
+      ev 2 (wit_msg true 2 (VAccept true)); ev 2 (ex_call 1 TUser 6%N);    (* a new peer naming the removed id: refused, nothing runs *)
+      ev 1 (ex_call 2 TUser 7%N); ev 1 (ex_call 1 TUser 8%N) ]           (* the older connection: id 2 is gone, id 1 still served *)
+  = [Reply 0 (RConnectFail RsnUnknownObject) 7%N 1%N; SockClosed 0;
+     Reply 1 RConnectOk 7%N 1%N; Exec 1 TUser 5%N; Reply 1 RResult 3%N 1%N;
+     Reply 2 (RConnectFail RsnUnknownObject) 7%N 1%N; SockClosed 2;
+     Reply 1 RError 3%N 1%N; Exec 1 TUser 8%N; Reply 1 RResult 3%N 1%N].
+Proof. vm_compute. reflexivity. Qed.
